@@ -23,7 +23,7 @@ static char *replace_all(const char *src, const char *tok, const char *word) {
 }
 /* returns NULL when the rewriting does not reach a fixpoint within the limits */
 static char *ref_parsestr(const char *str) {
-    char *value = vf_xdup(str, strlen(str) + 1); int rounds = 0; bool loop;
+    char *value = vf_xdup(str, strlen(str) + 1); int rounds = 0; bool loop; size_t limit = (1u << 17) + 2 * strlen(str);   /* growth limit relative to the text as written: a long line is not a cycle */
     do {
         loop = false;
         char *s, *e;
@@ -48,7 +48,7 @@ static char *ref_parsestr(const char *str) {
             char *nv = replace_all(value, tok, nw);
             hm_free(tok); hm_free(var); hm_free(value); value = nv; loop = true; break;
         }
-        if (++rounds > 300 || strlen(value) > (1u << 17)) { hm_free(value); return NULL; }
+        if (++rounds > 300 || strlen(value) > limit) { hm_free(value); return NULL; }
     } while (loop);
     return value;
 }
